@@ -186,3 +186,51 @@ TEXT = {
                 "encoding/json and reflect.DeepEqual (values are JSON primitives). resbadger index sets, typed values (Type option) and QueryCollection are not covered.",
     },
 }
+
+
+# ---- later additions (applied to the evaluated texts) -------------------------------------
+def _rep(pid, field, a, b):
+    t = TEXT[pid][field]
+    assert a in t, (pid, a[:50])
+    TEXT[pid][field] = t.replace(a, b)
+
+
+_rep('C03', 'text', "Tie as C01 plus steered schedules through the runWith/worker gates (late submission after close, retire/append window, Signal gap) for 1-3 workers;",
+     "Tie as C01 plus steered schedules through the runWith/worker gates (late submission after close, retire/append window, Signal gap, restart with stale group entries, "
+     "Serve retried while Shutdown drains with submissions to the still-running group, Shutdown completing inside the OnServe callback, a failing subscription at different "
+     "positions with self-shutdown and restart) for 1-3 workers;")
+_rep('C06', 'text', "Mount/Route/path-prefix arrangements are covered by the executable model + an independent executable spec",
+     "Through mounted sub-muxes (any nesting composes): a lookup through a mount finds what the sub-mux finds with the mount index shifted by the path length, hence the same "
+     "params and group (match/params/group_through_mount); registering st.p on the parent with tag positions counted in the full pattern equals registering p on the sub-mux - "
+     "same subtree, same outcome, for valid, invalid, fresh and conflicting patterns (add_through_mount; mount paths are what isValidPath accepts: litPath_of_validPath). "
+     "Mount/Route/path-prefix arrangements are also covered by the executable model + an independent executable spec")
+_rep('C06', 'note', "The Lean theorems are for a single mux (no Mount); the mounted arrangements are tied by model=spec=impl agreement only.",
+     "The World-level bookkeeping of Mount (which mux owns which subtree, FullPath) is tied by model=spec=impl agreement; the tree-level theorems cover lookup and registration "
+     "through a mount point.")
+_rep('C07', 'text', "each event type carries its documented fields. Tie as C04;",
+     "each event type carries its documented fields; for publications made through the service API (Model/SvcApi.lean): With/Resource on any valid resource id (with any query "
+     "part) publishes events exactly on event.<name part>.<event> with a valid resource name and NATS subject, a reset names exactly that name, reserved/malformed event names "
+     "publish nothing; TokenReset publishes only a concrete subject with at least one token id; TokenEventWithID only on conn.<cid>.token for a single valid token. Tie as C04;")
+_rep('C07', 'text', "judged by the Lean conformance predicate (subject grammar, member sets, meta only when HTTP).",
+     "judged by the Lean conformance predicate (subject grammar, member sets, meta only when HTTP); the svcapi stream drives With (resource ids with '?', '??', empty query), "
+     "TokenEvent(WithID), TokenReset and Reset with valid and invalid arguments and judges every publication (NATS publish-subject rules, resource-name rules, system event payloads).")
+_rep('C15', 'text', "failing subscription; the number of goroutines in startQueryListener is read from the goroutine dump.",
+     "failing subscription; the number of goroutines in startQueryListener is read from the goroutine dump; scenarios with two callbacks in flight: serial (a shared explicit "
+     "group), queued (a request held in the group queue across the expiry is still answered, the nil call comes last), lateenq (the listener is held at its hook between receipt "
+     "and enqueue until the nil call is queued: the callback must not run after nil).")
+_rep('C16', 'note', "(12 scenarios + ~75 pool workloads per quick run, more in thorough)",
+     "(12 whole-API scenarios, 12 query-event scenarios on Parallel and grouped resources, 4 ownership/ResetAll scenarios + ~75 pool workloads per quick run, more in thorough)")
+_rep('C19', 'text', "Tie: real SendRequest against a scripted connection (failing operations, sequences of pre-responses, responses and silences on a 30 ms grid, arrivals never on a deadline), run 48-wide in parallel.",
+     "Tie: real SendRequest with scripted message timings (failing operations, sequences of pre-responses, responses and silences on a 30 ms grid, arrivals never on a deadline; "
+     "48-wide in parallel; a watchdog turns a call that never returns into the outcome 'hang') on REAL inbox subscriptions of an embedded nats-server, whose release is observed "
+     "(Subscription.IsValid), and against a real res.Service over that server (response, extension by a real Timeout pre-response, silence, slow handler, failing publish, 40 "
+     "mixed calls; Conn.NumSubscriptions afterwards).")
+_rep('C19', 'note', "nats.Subscription.Unsubscribe (the release is the deferred call in the code).", "the embedded nats-server v2.1.8 / nats.go on loopback.")
+_rep('C20', 'text', "compared with the model and with the fold of the published events.",
+     "compared with the model and with the fold of the published events; resbadger typed model (Type option) with an IndexSet of two indexes and a QueryCollection: after every "
+     "event the query collection is fetched for both indexes and must list the resource exactly when the folded model has the indexed member with the queried prefix (also after reopen).")
+_rep('C20', 'note', "resbadger index sets, typed values (Type option) and QueryCollection are not covered.",
+     "Index sets are exercised with one resource and keys that are never empty (Create indexes under non-nil keys while Change uses non-empty keys: an empty non-nil key would leave "
+     "a stale entry - not in the generated inputs); resbadger's Model.RebuildIndexes (DropPrefix(index name) without the ':' separator, i.e. also every resource whose name starts "
+     "with an index name) is outside C20 and not exercised.")
+_rep('C12', 'note', "PARTIAL:", "Known finding: with an empty store prefix an id starting with '<index>:' shares the index's key space (queries fail, RebuildIndexes deletes the value). PARTIAL:")
